@@ -1360,6 +1360,12 @@ mod oracle {
     }
     #[test]
     fn oracle_c10_run_progress_returns_the_draws_of_run() {
+        // every progress run is under a watchdog: a reporter that never finishes must not hang the oracle itself
+        if within(240, oracle_c10_run_progress_returns_the_draws_of_run_body).is_none() {
+            witness("{\"oracle\":\"c10\",\"what\":\"run_progress of MH (1, 2, 7 chains) / Gibbs (3 chains) did not return within 240 s\"}".to_string());
+        }
+    }
+    fn oracle_c10_run_progress_returns_the_draws_of_run_body() {
         use mini_mcmc::stats::RunStats;
         // MH: many chains (more than the 5 progress bars), the first chain the slowest
         for n_chains in [1usize, 2, 7] {
@@ -1470,6 +1476,87 @@ mod oracle {
                     }
                 }
             }
+        }
+    }
+    /// more chains than progress bars, all equally fast / hidden chains finishing first: the reporter must still finish
+    #[test]
+    fn oracle_c10_progress_terminates_with_more_chains_than_bars() {
+        use mini_mcmc::core::ChainRunner;
+        fn never(_k: u64, _t: u64) -> u64 { 0 }
+        fn a_little(_k: u64, _t: u64) -> u64 { 120 }
+        for (what, n_chains, slow_visible) in [("7 equally fast chains", 7usize, false), ("12 equally fast chains", 12, false), ("6 chains, the five visible ones slower than the hidden one", 6, true), ("48 equally fast chains", 48, false)] {
+            let mk = move || PacedSampler { chains: (0..n_chains).map(|c| Paced { state: vec![0.0, 1000.0 * c as f64], id: c as f64, pause: if slow_visible && c < 5 { a_little } else { never }, total: 5 }).collect() };
+            let mk2 = mk.clone();
+            match within(40, move || mk().run_progress(4, 1).map(|(a, _)| a).map_err(|e| e.to_string())) {
+                None => witness(format!("{{\"oracle\":\"c10\",\"profile\":\"{what}\",\"what\":\"run_progress did not return within 40 s\"}}")),
+                Some(Err(e)) => witness(format!("{{\"oracle\":\"c10\",\"profile\":\"{what}\",\"what\":\"run_progress failed: {e}\"}}")),
+                Some(Ok(a)) => {
+                    let mut plain = mk2();
+                    for c in plain.chains.iter_mut() { c.pause = never; }
+                    if a != plain.run(4, 1).unwrap() {
+                        witness(format!("{{\"oracle\":\"c10\",\"profile\":\"{what}\",\"what\":\"run_progress returned draws that differ from run\"}}"));
+                    }
+                }
+            }
+        }
+    }
+    /// a statistics receiver that is dropped before or during the run changes neither the draws nor the number of transitions
+    #[test]
+    fn oracle_c10_dropped_receiver_changes_nothing() {
+        use mini_mcmc::core::{run_chain, run_chain_progress};
+        fn never(_k: u64, _t: u64) -> u64 { 0 }
+        fn slow_second(k: u64, _t: u64) -> u64 { if k == 2 { 1150 } else { 0 } }
+        fn slow_mid(k: u64, _t: u64) -> u64 { if k == 3 || k == 5 { 1100 } else { 0 } }
+        for (what, pause, drop_after_ms) in [("dropped before the run, slow 2nd transition", slow_second as fn(u64, u64) -> u64, None), ("dropped before the run, fast chain", never, None),
+                                              ("dropped during the run", slow_mid, Some(500u64)), ("dropped before the run, two slow transitions", slow_mid, None)] {
+            let (n_collect, n_discard) = (5usize, 2usize);
+            let mut plain = Paced { state: vec![0.0, 0.0], id: 0.0, pause: never, total: 7 };
+            let want = run_chain(&mut plain, n_collect, n_discard);
+            let res = within(40, move || {
+                let (tx, rx) = std::sync::mpsc::channel::<mini_mcmc::stats::ChainStats>();
+                let dropper = match drop_after_ms {
+                    None => { drop(rx); None }
+                    Some(ms) => Some(std::thread::spawn(move || { std::thread::sleep(std::time::Duration::from_millis(ms)); drop(rx); })),
+                };
+                let mut c = Paced { state: vec![0.0, 0.0], id: 0.0, pause, total: 7 };
+                let got = run_chain_progress(&mut c, n_collect, n_discard, tx).map_err(|e| e.to_string());
+                if let Some(h) = dropper { let _ = h.join(); }
+                (got, c.state[0])
+            });
+            match res {
+                None => witness(format!("{{\"oracle\":\"c10\",\"case\":\"{what}\",\"what\":\"the chain worker did not finish within 40 s\"}}")),
+                Some((Err(e), _)) => witness(format!("{{\"oracle\":\"c10\",\"case\":\"{what}\",\"what\":\"the chain worker failed: {e}\"}}")),
+                Some((Ok(got), steps)) => {
+                    if got != want || steps as usize != n_collect + n_discard {
+                        witness(format!("{{\"oracle\":\"c10\",\"case\":\"{what}\",\"transitions\":{steps},\"what\":\"with the receiver gone the worker returned other draws than run_chain or made a different number of transitions ({} expected)\"}}", n_collect + n_discard));
+                    }
+                }
+            }
+        }
+    }
+    /// thorough tier only (minutes): more than 2^24 transitions per chain — the final report must still carry n == total
+    #[test]
+    fn oracle_c10_progress_terminates_after_more_than_2_pow_24_transitions() {
+        use mini_mcmc::core::ChainRunner;
+        if std::env::var("VERIF_TIER").as_deref() != Ok("thorough") {
+            return;
+        }
+        fn never(_k: u64, _t: u64) -> u64 { 0 }
+        let total = (1usize << 24) + 24;
+        let t0 = std::time::Instant::now();
+        {
+            // the time one worker (with its statistics tracker) needs, to size the watchdog
+            let (tx, _rx) = std::sync::mpsc::channel::<mini_mcmc::stats::ChainStats>();
+            let mut c = Paced { state: vec![0.0, 0.0], id: 0.0, pause: never, total: total as u64 };
+            let _ = mini_mcmc::core::run_chain_progress(&mut c, 4, total - 4, tx);
+        }
+        let one = t0.elapsed().as_secs() + 1;
+        let res = within(3 * one + 60, move || {
+            let mut s = PacedSampler { chains: vec![Paced { state: vec![0.0, 0.0], id: 0.0, pause: never, total: total as u64 }] };
+            s.run_progress(4, total - 4).map(|(a, _)| a.dim()).map_err(|e| e.to_string())
+        });
+        if res.is_none() {
+            witness(format!("{{\"oracle\":\"c10\",\"transitions\":{total},\"what\":\"run_progress did not return within {} s (one chain worker alone takes {one} s)\"}}", 3 * one + 60));
         }
     }
     mod progress_tensor {
